@@ -2,7 +2,7 @@ use super::signed_angle;
 use crate::common::points::mid_point;
 use parry2d_f64::bounding_volume::SimdAabb;
 use parry2d_f64::math::{SimdBool, SimdReal, DIM, SIMD_WIDTH};
-use parry2d_f64::na::{Isometry2, Point2, SimdPartialOrd, SimdValue, Vector2};
+use parry2d_f64::na::{Isometry2, Point2, SimdComplexField, SimdPartialOrd, SimdValue, Vector2};
 use parry2d_f64::partitioning::{SimdVisitStatus, SimdVisitor};
 use parry2d_f64::query::{Ray, SimdRay};
 use parry2d_f64::shape::{Polyline, SimdCompositeShape};
@@ -176,14 +176,22 @@ fn cast_ray(bv: &SimdAabb, ray: &SimdRay) -> (SimdBool, SimdReal) {
 
     // TODO: could this be optimized more considering we really just need a boolean answer?
     for i in 0usize..DIM {
+        // The box is padded by a few thousand units in the last place of the coordinates involved,
+        // so that a line passing through a corner of the box (a line through a vertex of the
+        // polyline) is not pruned by rounding; every candidate edge is tested exactly afterwards
+        let pad = (bv.mins[i].simd_abs() + bv.maxs[i].simd_abs() + ray.origin[i].simd_abs())
+            * SimdReal::splat(1.0e-12);
+        let lo = bv.mins[i] - pad;
+        let hi = bv.maxs[i] + pad;
+
         let is_not_zero = ray.dir[i].simd_ne(zero);
-        let is_zero_test = ray.origin[i].simd_ge(bv.mins[i]) & ray.origin[i].simd_le(bv.maxs[i]);
+        let is_zero_test = ray.origin[i].simd_ge(lo) & ray.origin[i].simd_le(hi);
         let is_not_zero_test = {
             let denom = one / ray.dir[i];
             let mut inter_with_near_plane =
-                ((bv.mins[i] - ray.origin[i]) * denom).select(is_not_zero, -infinity);
+                ((lo - ray.origin[i]) * denom).select(is_not_zero, -infinity);
             let mut inter_with_far_plane =
-                ((bv.maxs[i] - ray.origin[i]) * denom).select(is_not_zero, infinity);
+                ((hi - ray.origin[i]) * denom).select(is_not_zero, infinity);
 
             let gt = inter_with_near_plane.simd_gt(inter_with_far_plane);
             simd_swap(gt, &mut inter_with_near_plane, &mut inter_with_far_plane);
